@@ -1,6 +1,7 @@
-import CpModel.PipelineProto
+import CpModel.HookAttachProto
 /-!
-  Driver for C09 (hook order, fail-safe hooks, end hooks exactly once).  One fault plan per line in,
-  one canonical result line out; the protocol is documented in `CpModel/PipelineProto.lean`.
+  Driver for C09 (hook order, fail-safe hooks, end hooks exactly once).  One case per line in, one canonical
+  result line out: fault plans (protocol in `CpModel/PipelineProto.lean`) and the attachment model's
+  `attach` / `heap` cases (protocol in `CpModel/HookAttachProto.lean`).
 -/
-def main : IO Unit := CpModel.Proto.runDriver CpModel.PipelineProto.step
+def main : IO Unit := CpModel.Proto.runDriver CpModel.HookAttachProto.step
